@@ -438,4 +438,68 @@ theorem curvLoop_fst_idx (km : Nat → Nat → Int) (diam d fuel : Nat) (K : Lis
     · exact ih _ _ _
     · rfl
 
+/-! ### `find_lb` -/
+
+theorem foldl_max_init (l : List Nat) (a : Nat) : l.foldl max a = max a (l.foldl max 0) := by
+  induction l generalizing a with
+  | nil => simp
+  | cons x xs ih => simp only [List.foldl_cons]; rw [ih (max a x), ih (max 0 x)]; omega
+
+theorem foldl_max_flatten (D : List (List Nat)) (a : Nat) :
+    D.flatten.foldl max a = (D.map fun r => r.foldl max 0).foldl max a := by
+  induction D generalizing a with
+  | nil => rfl
+  | cons r D ih => simp only [List.flatten_cons, List.foldl_append, List.map_cons, List.foldl_cons, ih, ← foldl_max_init]
+
+/-- `np.max` of a matrix with at least one entry is the model's `matMax` -/
+theorem npMax_eq {D : List (List Nat)} (h : D.flatten ≠ []) : npMax D = .ok (matMax D) := by
+  unfold npMax matMax
+  rw [← foldl_max_flatten]
+  cases hf : D.flatten with
+  | nil => exact absurd hf h
+  | cons x xs => simp
+
+theorem flatten_ne_nil_of_sq {D : List (List Nat)} (h : Sq D) (hne : D ≠ []) : D.flatten ≠ [] := by
+  cases D with
+  | nil => exact absurd rfl hne
+  | cons r rs =>
+    have : r.length = rs.length + 1 := h r (List.mem_cons_self ..)
+    cases r with
+    | nil => simp at this
+    | cons x xs => simp
+
+theorem natAbs_sub_eq_absDiff (a b : Nat) : ((a : Int) - (b : Int)).natAbs = absDiff a b := by
+  unfold absDiff; omega
+
+theorem le_foldl_max {l : List Nat} {x a : Nat} (h : x ∈ l) : x ≤ l.foldl max a := by
+  induction l generalizing a with
+  | nil => simp at h
+  | cons y ys ih =>
+    simp only [List.foldl_cons]
+    rcases List.mem_cons.1 h with rfl | h
+    · rw [foldl_max_init]; omega
+    · exact ih h
+
+theorem le_matMax_of_mem {D : List (List Nat)} {row : List Nat} {x : Nat} (hr : row ∈ D) (hx : x ∈ row) : x ≤ matMax D := by
+  unfold matMax
+  exact le_trans (le_foldl_max (a := 0) hx) (le_foldl_max (List.mem_map_of_mem hr))
+
+theorem entries_delRowCol {K : List (List Nat)} {m r : Nat} (h : ∀ row ∈ K, ∀ x ∈ row, x ≤ m) :
+    ∀ row ∈ delRowCol K r, ∀ x ∈ row, x ≤ m := by
+  intro row hrow x hx
+  simp only [delRowCol, List.mem_map] at hrow
+  obtain ⟨row', h1, rfl⟩ := hrow
+  exact h row' (List.mem_of_mem_eraseIdx h1) x (List.mem_of_mem_eraseIdx hx)
+
+/-- the entries of the curvature the model's loop returns are entries of the matrix it started from -/
+theorem entries_curvLoop (km : Nat → Nat → Int) (diam d m : Nat) (fuel : Nat) (K : List (List Nat)) (idx : List Nat)
+    (h : ∀ row ∈ K, ∀ x ∈ row, x ≤ m) : ∀ row ∈ (curvLoop km diam d fuel K idx).1, ∀ x ∈ row, x ≤ m := by
+  induction fuel generalizing K idx with
+  | zero => simp [curvLoop]
+  | succ fuel ih =>
+    simp only [curvLoop]
+    split
+    · exact ih _ _ (entries_delRowCol h)
+    · exact h
+
 end PersimVerif.SrcBridge.MGH
